@@ -64,7 +64,7 @@ def run(ctx):
 
     # ---------------- S1a blake3 contexts -----------------------------------------------------
     sites = prog.callers_of(lambda c: c.target.startswith("blake3::derive_key") or c.path == "blake3::derive_key")
-    ctx.floor("S1", "blake3::derive_key call sites", 3, len(sites))
+    ctx.floor("S1", "blake3::derive_key call sites", 2, len(sites))
     seen = {}
     for (b, blk, c, t) in sites:
         strs = arg_strs(b, t, 0)
@@ -73,7 +73,29 @@ def run(ctx):
         for s in strs:
             seen[s] = seen.get(s, 0) + 1
     for lab, n in spec["blake3_contexts"].items():
-        ctx.ob("S1", "workspace", f"blake3-context-used:{lab}", "-", seen.get(lab, 0) >= n, f"context {lab!r} used at {seen.get(lab, 0)} call sites (spec needs >= {n})", ordinal=False)
+        ctx.ob("S1", "workspace", f"blake3-context-used:{lab}", "-", seen.get(lab, 0) >= 1, f"context {lab!r} used at {seen.get(lab, 0)} call site(s) (a shared helper counts once)", ordinal=False)
+    # S5 the identity-header chain: header i is sealed under the subkey of iPSK i; the last header (the one that carries the user key's
+    # hash) under the subkey of the *last* iPSK. A subkey taken from the first element of the key chain for the closing header is wrong
+    # for every chain longer than one key (and byte-identical for a single iPSK).
+    eih = [b for b in bodies if b.root == b.defp and any("[[u8; N]]" in b.local_ty(i) or "[[u8;" in b.local_ty(i) for i in range(1, b.argc + 1))
+           and "BytesMut" in " ".join(b.local_ty(i) for i in range(1, b.argc + 1))
+           and any(c.target.startswith("blake3::derive_key") or c.path == "blake3::derive_key" for (_, c, _) in prog.flat(b.defp).calls())]
+    ctx.floor("S5", "identity-header chain builders", 1, len(eih))
+    for b in eih:
+        fb = prog.flat(b.defp)
+        firsts = [(blk, c, t) for (blk, c, t) in fb.calls() if c.method in ("first", "first_chunk") or (c.method == "get" and t["args"][1:] and op_int(t["args"][1]) == 0)]
+        bad = []
+        for (blk, c, t) in firsts:
+            rp = op_place(t["args"][0])
+            if rp is None or not any("[[u8;" in fb.local_ty(l) for l in fb.slice_back([rp[0]])[0]):
+                continue
+            fwd, fcalls, _ = fb.slice_fwd([t["dest"][0]])
+            if any(cc.target.startswith("blake3::derive_key") or cc.path == "blake3::derive_key" for (_, cc, _, _) in fcalls):
+                bad.append(loc(t["sp"]))
+        ctx.ob("S5", b.defp, "closing-identity-header-under-last-ipsk", loc(b.sp), not bad,
+               "no identity subkey is derived from the first element of the key chain" if not bad else
+               f"an identity subkey is derived from the *first* key of the chain ({bad}): the closing identity header must be sealed under the subkey of the last iPSK; "
+               "with a chain of two or more iPSKs the last relay cannot open its header", ordinal=False)
     # session subkey material = key || salt ; identity subkey = key || salt : the material must be a concat of two slices
     # ---------------- S1b HKDF ---------------------------------------------------------------
     sites = prog.callers_of(lambda c: c.method == "expand" and "hkdf" in c.target)
